@@ -129,8 +129,11 @@ class TU:
         if k.endswith('Comment'):
             return
         if 'id' in n:
-            self.by_id[n['id']] = n
-            self.parent[n['id']] = parent
+            old = self.by_id.get(n['id'])
+            # clang prints a node fully once and as a shallow reference elsewhere: keep the full one
+            if old is None or (not old.get('inner') and n.get('inner')) or (old.get('inner') is None and len(n) > len(old)):
+                self.by_id[n['id']] = n
+                self.parent[n['id']] = parent
         if k in FUNC_KINDS and any(c.get('kind') == 'CompoundStmt' for c in n.get('inner', []) if isinstance(c, dict)):
             self.funcs.append(n)
         if k in ('CXXRecordDecl', 'ClassTemplateSpecializationDecl') and n.get('completeDefinition'):
@@ -448,12 +451,14 @@ class Translator:
             if cand in tu.records:
                 return self._record(cand, tu)
         # records may be known under a shorter printed name (nested in current namespaces)
-        for name in list(tu.enums):
-            if name.endswith('::' + q):
-                return self._enum(name, tu)
-        for name in list(tu.records):
-            if name.endswith('::' + q):
-                return self._record(name, tu)
+        ec = [name for name in tu.enums if name.endswith('::' + q)]
+        rc = [name for name in tu.records if name.endswith('::' + q)]
+        if len(ec) + len(rc) > 1:
+            raise ExtractionBreak('ambiguous unqualified type %s: %s' % (q, (ec + rc)[:4]))
+        if ec:
+            return self._enum(ec[0], tu)
+        if rc:
+            return self._record(rc[0], tu)
         raise ExtractionBreak('unknown type %s' % t)
 
     def _abbr(self, ct):
@@ -581,10 +586,48 @@ class Translator:
                 suffix += '_c'
         par_ = tu.parent.get(node.get('id'))
         if par_ is not None and par_.get('kind') == 'FunctionTemplateDecl':
-            # instantiations of one function template differ by template arguments: add the return type
-            rt = re.sub(r'WorldBuilder::|std::|const |&|\s', '', self._ret_type(node))
-            suffix += '__ret_' + re.sub(r'[^A-Za-z0-9]+', '_', rt).strip('_')[:40]
+            # instantiations of one function template differ by template arguments: add them (else the return type)
+            targs = self.template_args(node)
+            if targs:
+                rt = '_'.join(re.sub(r'WorldBuilder::|std::|const |&|\s', '', t_) for t_ in targs)
+            else:
+                rt = re.sub(r'WorldBuilder::|std::|const |&|\s', '', self._ret_type(node))
+            suffix += '__ret_' + re.sub(r'[^A-Za-z0-9]+', '_', rt).strip('_')[:60]
         return base + suffix
+
+    def template_args(self, node):
+        out = []
+        for c in node.get('inner', []) or []:
+            if c.get('kind') == 'TemplateArgument' and 'type' in c:
+                out.append(c['type'].get('desugaredQualType') or c['type']['qualType'])
+        if not out and node.get('mangledName') and node.get('name') and 'I' in node['mangledName']:
+            # explicit specialisations carry no TemplateArgument children: take them from the demangled name
+            try:
+                dm = subprocess.run(['c++filt', node['mangledName']], capture_output=True, text=True).stdout.strip()
+                m = re.search(r'::' + re.escape(node['name']) + r'<', dm)
+                if m:
+                    depth = 0
+                    i = m.end() - 1
+                    for j in range(i, len(dm)):
+                        if dm[j] == '<':
+                            depth += 1
+                        elif dm[j] == '>':
+                            depth -= 1
+                            if depth == 0:
+                                out = split_targs(dm[i + 1:j])
+                                break
+            except Exception:
+                pass
+        return out
+
+    def requalify(self, qt, node):
+        """clang prints types of template instantiations with unqualified names (unique_ptr<Interface>): put back the
+        qualified template arguments of the instantiation"""
+        for targ in self.template_args(node):
+            short = targ.split('::')[-1]
+            if '::' in targ and re.search(r'(?<![:\w])' + re.escape(short) + r'(?![\w])', qt) and targ not in qt:
+                qt = re.sub(r'(?<![:\w])' + re.escape(short) + r'(?![\w])', targ, qt)
+        return qt
 
     def _overloaded(self, tu, node, qual):
         par = tu.semantic_parent(node)
@@ -672,7 +715,7 @@ class Translator:
             info['this'] = rt
             info['ctor'] = True
         else:
-            rt = self.ctype(ret_q, tu, node)
+            rt = self.ctype(self.requalify(ret_q, node), tu, node)
             info['ret'] = rt
             info['ret_ref'] = rt.ref
             if is_method:
@@ -683,7 +726,7 @@ class Translator:
                 cparams.append('%s *this_' % tt.c)
         for i, p in enumerate(params):
             qt = p['type'].get('desugaredQualType') or p['type']['qualType']
-            pt = self.ctype(qt, tu, p)
+            pt = self.ctype(self.requalify(qt, node), tu, p)
             pname = p.get('name') or 'unnamed_%d' % i
             info['params'].append((pname, pt, p))
             if pt.ref:
@@ -713,6 +756,9 @@ class Translator:
             try:
                 FunctionBody(self, info).translate()
             except ExtractionBreak as e:
+                if os.environ.get('CXX2C_DEBUG'):
+                    import traceback
+                    traceback.print_exc()
                 raise ExtractionBreak('%s (while translating %s)' % (e, cn))
         # fixed point for "throws"
         changed = True
@@ -1350,6 +1396,9 @@ class FunctionBody:
             self.pre = saved
             if ct.kind == 'scalar':
                 self.tr.global_consts[name] = '#define %s ((%s)(%s))' % (name, ct.c, v)
+            elif ct.c == 'struct wb_string':
+                # a function call is no constant initialiser in C
+                self.tr.global_consts[name] = '#define %s (%s)' % (name, v)
             else:
                 self.tr.global_consts[name] = 'static const %s %s = %s;' % (ct.c, name, v)
         return name
@@ -1637,7 +1686,7 @@ class FunctionBody:
             if i >= len(params):
                 brk('variadic call', callnode)
             p = params[i]
-            pt = self.tr.ctype(p['type'].get('desugaredQualType') or p['type']['qualType'], self.tu, p)
+            pt = self.tr.ctype(self.tr.requalify(p['type'].get('desugaredQualType') or p['type']['qualType'], decl), self.tu, p)
             if a.get('kind') == 'CXXDefaultArgExpr':
                 init = [c for c in p.get('inner', []) if c.get('kind') and not c['kind'].endswith('Comment')]
                 if not init:
@@ -1908,6 +1957,8 @@ class FunctionBody:
                 return '(&%s.e[%d])' % (o, ot.n)
             if name == 'at' and len(a) == 1:
                 return '%s.e[%s]' % (o, self.expr(a[0]))
+        if ot.c == 'struct wb_mt19937' and name == 'seed' and len(a) == 1:
+            return 'wb_mt19937_seed(&%s, %s)' % (o, self.expr(a[0]))
         if ot.kind == 'thread':
             if name == 'joinable' and not a:
                 return '%s.joinable' % o
@@ -1957,7 +2008,7 @@ class FunctionBody:
         if opname in ('operator->', 'operator*') and t0.kind == 'ptr':
             o = self.expr(args[0])
             return o if opname == 'operator->' else '(*%s)' % o
-        if opname == 'operator=' and t0.kind in ('vector', 'array', 'record', 'thread'):
+        if opname == 'operator=' and t0.kind in ('vector', 'array', 'record', 'thread', 'ptr'):
             s = '%s = %s' % (self.expr(args[0]), self.expr(args[1]))
             return s if stmt else '(' + s + ')'
         if t0.kind == 'string':
